@@ -98,14 +98,20 @@ Draw ==
                 \* the order in which the edges are listed is part of the input: a random permutation of the skeleton ...
                 key |-> [e \in 1..n |-> RandomElement(1..1000)],
                 \* ... and every other draw a sparse reference flow (few external vertices, some of them far from edge 1)
-                sparse |-> RandomElement({TRUE, FALSE}),
-                mask |-> [e \in 1..n |-> RandomElement({0, 1})]]
+                sparse |-> RandomElement({TRUE, FALSE, FALSE, FALSE}),
+                mask |-> [e \in 1..n |-> RandomElement({0, 1})],
+                \* ... and every fourth draw a flow along ONE coordinate axis (all momenta parallel, e.g. a rest frame): a defect
+                \* that drops or repeats particular components of the D-vectors then loses or doubles the whole kinematics
+                axis |-> RandomElement({0, 0, 0, 1}) * RandomElement(1..6)]
 Decorate ==
    /\ st.k = "num"
    /\ LET n  == Len(st.es)
           perm == SortSeq([i \in 1..n |-> i], LAMBDA a, b : st.key[a] < st.key[b] \/ (st.key[a] = st.key[b] /\ a < b))
           es == [i \in 1..n |-> st.es[perm[i]]]
-          p0 == [e \in 1..n |-> [c \in 1..st.d |-> IF st.sparse THEN st.mask[e] * st.pmax[e][c] ELSE st.pmax[e][c]]]
+          ax == IF st.axis = 0 THEN 0 ELSE 1 + (st.axis % st.d)
+          p0 == [e \in 1..n |-> [c \in 1..st.d |->
+                   IF ax # 0 THEN (IF c = ax THEN st.pmax[e][c] ELSE 0)
+                   ELSE IF st.sparse THEN st.mask[e] * st.pmax[e][c] ELSE st.pmax[e][c]]]
           g  == Decorated(es, st.m, p0, st.w, st.d)
       IN /\ Accepted(g)
          /\ st' = [k |-> "g", g |-> g, m |-> st.m, p0 |-> p0, name |-> st.name]
